@@ -248,12 +248,12 @@ Definition edge_classes (g : nodes) : list cls :=
 (* what BuildGraph can report *)
 Definition graph_classes (g : nodes) : list cls :=
   match edge_classes g with
-  | _ :: _ as e => e
   | [] => match find_cycle g with
           | DfsCycle => [Cycle]
           | DfsFuel => [CycleFuel]
           | DfsDone _ => flag (has_conflict g) Conflict
           end
+  | e => e
   end.
 
 (* what CheckTargetConstraints reports *)
@@ -379,3 +379,12 @@ Definition plain_outputs (g : nodes) : Prop :=
 Definition no_self_overlap (rootc : list str) (g : nodes) : Prop :=
   forall t o1 o2, In (NTarget t) g -> In (o1, o2) (pairs (all_outputs t)) ->
     ~ overlap (place_of rootc t o1) (place_of rootc t o2).
+
+(* side conditions: package paths are relative (they come from filepath.Rel) *)
+Definition rel_pkgs (g : nodes) : Prop := forall t, In (NTarget t) g -> is_abs (lpkg (t_label t)) = false.
+Definition rel_outputs (g : nodes) : Prop :=
+  forall t o, In (NTarget t) g -> In o (all_outputs t) -> o_type o <> ODocker -> is_abs (o_id o) = false.
+
+(* the part of outputs_ok the code does check: FILE outputs (bin output included) *)
+Definition file_outputs_ok (rootc : list str) (g : nodes) : Prop :=
+  forall t o, In (NTarget t) g -> In o (all_outputs t) -> o_type o = OFile -> output_ok rootc t o.
